@@ -74,9 +74,18 @@ pub struct Outcome {
     /// labels for the class histogram
     pub classes: Vec<&'static str>,
     pub failure: Option<Failure>,
+    /// additive counters reported in the evidence (e.g. crash images opened, queries compared)
+    pub counts: Vec<(&'static str, u64)>,
 }
 
 impl Outcome {
+    pub fn count(&mut self, name: &'static str, n: u64) {
+        if let Some(c) = self.counts.iter_mut().find(|c| c.0 == name) {
+            c.1 += n;
+        } else {
+            self.counts.push((name, n));
+        }
+    }
     pub fn class(&mut self, c: &'static str) {
         if !self.classes.contains(&c) {
             self.classes.push(c);
@@ -301,6 +310,8 @@ pub struct WorkerReport {
     pub nontrivial_hashes: Vec<u64>,
     pub samples: Vec<Value>,
     pub classes: BTreeMap<String, u64>,
+    #[serde(default)]
+    pub counters: BTreeMap<String, u64>,
     /// signature -> (count, first detail)
     pub known: BTreeMap<String, (u64, String)>,
     pub violation: Option<ViolationReport>,
@@ -360,6 +371,9 @@ impl Tally {
         }
         for c in &o.classes {
             *self.report.classes.entry(c.to_string()).or_insert(0) += 1;
+        }
+        for (k, n) in &o.counts {
+            *self.report.counters.entry(k.to_string()).or_insert(0) += n;
         }
         if o.nontrivial {
             let bytes = serde_json::to_vec(case).unwrap_or_default();
@@ -657,7 +671,11 @@ pub fn run_parent<P: Prop>(tier: Tier) -> i32 {
     let mut nontrivial: BTreeSet<u64> = BTreeSet::new();
     let mut samples: Vec<Value> = vec![];
     let mut classes: BTreeMap<String, u64> = BTreeMap::new();
+    let mut counters: BTreeMap<String, u64> = BTreeMap::new();
     for r in &reports {
+        for (k, v) in &r.counters {
+            *counters.entry(k.clone()).or_insert(0) += v;
+        }
         evaluations += r.evaluations;
         enumerated += r.enumerated;
         nontrivial.extend(r.nontrivial_hashes.iter().copied());
@@ -709,6 +727,7 @@ pub fn run_parent<P: Prop>(tier: Tier) -> i32 {
             "rule": P::rule(),
             "samples": samples,
             "classes": classes,
+            "counters": counters,
             "replayed_saved_cases": replayed,
             "enumerated_exhaustively": enumerated,
             "exhaustive": false,
@@ -741,6 +760,9 @@ pub fn run_parent<P: Prop>(tier: Tier) -> i32 {
         excluded_known,
         wall
     );
+    for (k, v) in &counters {
+        println!("  counter {k}: {v}");
+    }
     let mut top: Vec<_> = classes.iter().collect();
     top.sort_by(|a, b| b.1.cmp(a.1));
     for (k, v) in top.iter().take(24) {
